@@ -3,4 +3,4 @@
    Run by lib/vcheck.py inside build/ocaml/C05. *)
 From Coq Require Import Extraction ExtrOcamlBasic.
 Require Import MW.Keys.Unlock MW.Keys.Sign MW.Keys.Exec.
-Extraction "model.ml" x_cfg x_init x_step x_obs x_prog x_sign_raw x_verified x_rows wit_shape parse_flag.
+Extraction "model.ml" x_cfg x_init x_step x_obs x_prog x_sign_raw x_verified x_witness x_rows wit_shape parse_flag.
